@@ -549,6 +549,10 @@ func runCheck(prop, tier string) int {
 	return exit
 }
 
+func realTimePlan(plan []byte) bool {
+	return bytes.Contains(plan, []byte(`"k":"Storm"`)) || bytes.Contains(plan, []byte(`"poip":true`))
+}
+
 // engineOf tells which engine made a plan (a check may run two engines).
 func engineOf(cfg checkCfg, plan []byte) string {
 	if cfg.Engine2 == "" {
@@ -776,7 +780,10 @@ func (a *agg) add(ol *outLine) {
 	}
 	if ol.Viol != nil {
 		k := ol.Viol.Key()
-		if _, ok := a.viols[k]; !ok {
+		// the occurrence kept for the report: the first one, but one whose plan
+		// replays exactly is preferred to one with a real-time step (conversion
+		// storm, packets fed to the PCAP-over-IP handler)
+		if prev, ok := a.viols[k]; !ok || realTimePlan(prev.Plan) && !realTimePlan(ol.Plan) {
 			cp := *ol
 			a.viols[k] = &cp
 		}
